@@ -101,6 +101,8 @@ class Run:
             coverage["obligations_failing_as_known_findings"] = coverage["obligations"] - coverage["discharged"]
             coverage["obligations"] = coverage["discharged"]
         coverage.setdefault("undecided", self.undecided[:50])
+        if self.notes:
+            coverage.setdefault("notes", self.notes[:50])
         ev = {
             "property_id": self.pid,
             "tier": self.tier,
